@@ -1,4 +1,5 @@
 From Verif Require Import Common C01_Model C01_Spec C01_Monitor C01_Hist C01_HistSpec C01_Comp C01_CompSpec.
+From Verif Require Import C01_Forms C01_FormsSpec C01_Relist C01_RelistSpec.
 From Verif Require Op_Model Op_Corr Op_Spec C01_OpSpec.
 Open Scope N_scope.
 
@@ -6,9 +7,15 @@ Inductive case := CInf (i : input) (o : observation) | CMon (i : min) (o : mobs)
   | CStress (i : input) (o : observation)    (* free-running goroutines: judged by P_free only *)
   | COp (c : Op_Corr.case)                    (* the whole operator (Op_Model): unlock only by the binding's own Synchronization *)
   | CHist (i : hist_in) (o : hobs)            (* namespace.labelSelector: events over histories of namespaces and objects (C01_Hist) *)
-  | CHist2 (i : hist_in) (k : comp_in) (o oc : hobs).
+  | CHist2 (i : hist_in) (k : comp_in) (o oc : hobs)
                                               (* the same beside a second binding with static namespaces whose informers
                                                  share the first one's shared informers (C01_Comp): the events of both *)
+  | CInfF (i : finput) (o : observation)      (* CInf with the handler's argument in either form client-go uses: the object,
+                                                 or (Deleted found by a relist) a DeletedFinalStateUnknown tombstone (C01_Forms) *)
+  | CStressF (i : finput) (o : observation)   (* CStress likewise *)
+  | CRelist (i : hist_in) (ops : list rhop) (o : hobs).
+                                              (* CHist across watch outages: healthy steps and outages followed by the
+                                                 reflectors' relist (C01_Relist) *)
 
 (* ghost of the run: changes picked up when the last Synchronization read before the first
    unlock was taken (computed by the model run itself) *)
@@ -39,6 +46,9 @@ Definition model_obs (c : case) : mo :=
   | COp c => MoOp (Op_Corr.model_obs c)
   | CHist i _ => MoHist (mkHOb (hist_out i) 0 false)
   | CHist2 i k _ _ => MoHist2 (mkHOb (hist_out i) 0 false) (mkHOb (comp_out i k) 0 false)
+  | CInfF i _ => MoInf (obs_of (run_forms i))
+  | CStressF i _ => MoInf (obs_of (run_forms i))
+  | CRelist i ops _ => MoHist (mkHOb (relist_out i ops) 0 false)
   end.
 
 Definition view_eqb (a b : N * cache_t) : bool := N.eqb (fst a) (fst b) && cache_eqb (snd a) (snd b).
@@ -47,9 +57,7 @@ Definition view_eqb (a b : N * cache_t) : bool := N.eqb (fst a) (fst b) && cache
    namespaces run concurrently, and inside one shared informer client-go's DeltaFIFO hands over
    the pending changes of ONE object together, ahead of changes of other objects that happened
    in between: only the order per object is determined (it is also all the property asks for) *)
-Definition agrees (c : case) : bool :=
-  match c with
-  | CInf i o =>
+Definition agrees_inf (i : input) (o : observation) : bool :=
       let m := obs_of (run i) in
       list_eqb event_eqb (ob_out m) (ob_out o)
       && list_eqb view_eqb (ob_views m) (ob_views o)
@@ -58,7 +66,14 @@ Definition agrees (c : case) : bool :=
       && N.eqb (ob_buflen m) (ob_buflen o)
       && N.eqb (ob_out_before_e m) (ob_out_before_e o)
       && N.eqb (ob_finished m) (ob_finished o)
-      && negb (ob_bad o)
+      && negb (ob_bad o).
+
+Definition agrees (c : case) : bool :=
+  match c with
+  | CInf i o => agrees_inf i o
+  | CInfF i o => agrees_inf (model_input i) o
+  | CStressF _ o => negb (ob_bad o)
+  | CRelist i ops o => same_per_object (relist_out i ops) (ho_out o) && N.eqb (ho_before o) 0 && negb (ho_bad o)
   | CMon i o =>
       let m := mobserve i in
       Bool.eqb (mo_flag m) (mo_flag o) && N.eqb (mo_informers m) (mo_informers o)
@@ -82,11 +97,14 @@ Definition spec_ok (c : case) : bool :=
   | COp c => C01_OpSpec.P_op c
   | CHist i o => HP i o
   | CHist2 i k o oc => HP2 i k o oc
+  | CInfF i o => PF i (k_of (model_input i)) o
+  | CStressF i o => PF_free i o
+  | CRelist i ops o => RP i ops o
   end.
 
 Definition mismatches (cs : list case) : list N := indices_where (fun c => negb (agrees c)) cs.
 Definition spec_violations (cs : list case) : list N := indices_where (fun c => negb (spec_ok c)) cs.
 Definition trigger_F23 (cs : list case) : list N :=
-  indices_where (fun c => match c with CInf i _ => T i | _ => false end) cs.
+  indices_where (fun c => match c with CInf i _ => T i | CInfF i _ => T (model_input i) | _ => false end) cs.
 Definition trigger_F24 (cs : list case) : list N :=
-  indices_where (fun c => match c with CMon i _ => MT i | CHist i _ => HT i | CHist2 i _ _ _ => HT i | _ => false end) cs.
+  indices_where (fun c => match c with CMon i _ => MT i | CHist i _ => HT i | CHist2 i _ _ _ => HT i | CRelist i ops _ => RT i ops | _ => false end) cs.
